@@ -323,6 +323,23 @@ class Surface(Numbered_MCNP_Object):
     def __hash__(self):
         return hash((self.number, str(self.surface_type)))
 
+    def _may_be_merged_with(self, other):
+        """Whether the attributes shared by all surface types allow ``other`` to be a duplicate of this surface.
+
+        Neither surface may be periodic, and both must have the same boundary condition
+        (reflecting, white, or none).
+
+        :param other: the surface to compare against.
+        :type other: Surface
+        :rtype: bool
+        """
+        return (
+            self.periodic_surface is None
+            and other.periodic_surface is None
+            and self.is_reflecting == other.is_reflecting
+            and self.is_white_boundary == other.is_white_boundary
+        )
+
     def find_duplicate_surfaces(self, surfaces, tolerance):
         """Finds all surfaces that are effectively the same as this one.
 
